@@ -267,6 +267,13 @@ func ModelDocument(d *logical.Doc) *model.Document {
 
 func (ragBackend) Markdown(c *fw.Ctx, id string, d *logical.Doc, r *rand.Rand, neutral map[string]bool, o rag.MarkdownOptions) (string, error) {
 	cc := rag.NewDocumentChunker().ChunkDocument(ModelDocument(d))
+	if r.Intn(2) == 0 {
+		// the same collection has been rendered before, under other options (a caller
+		// that writes one file per option set): a rendering depends on the collection
+		// and the options, not on earlier renderings
+		cc.ToMarkdownWithOptions(rag.MarkdownOptions{IncludeMetadata: true, IncludeTableOfContents: true, HeadingLevelOffset: 1 + r.Intn(3), MaxHeadingLevel: 1 + r.Intn(6)})
+		cc.ToMarkdown()
+	}
 	return cc.ToMarkdownWithOptions(o), nil
 }
 
